@@ -90,6 +90,7 @@ type HarnessStats struct {
 	Funcs        map[string]int
 	Samples      []map[string]interface{}
 	Candidates   []Candidate
+	SampleCands  []Candidate
 	EngineErrors []string
 	BoundNotes   []string
 	WallS        float64
@@ -109,6 +110,9 @@ type Explorer struct {
 	maxCands   int
 	verbose    bool
 	trace      bool
+	tier       int
+	sampleSeed int64
+	pathSeq    int64
 
 	mu      sync.Mutex
 	cond    *sync.Cond
@@ -224,6 +228,9 @@ func (ex *Explorer) worker(id int) {
 		}
 		if out == OutOK && len(st.Samples) < ex.maxSamples && ps.sample != nil {
 			st.Samples = append(st.Samples, ps.sample)
+			if ps.sampleCand != nil {
+				st.SampleCands = append(st.SampleCands, *ps.sampleCand)
+			}
 		}
 		for _, a := range ps.alts {
 			ex.stack = append(ex.stack, a)
